@@ -520,6 +520,63 @@ func ruleC35(c *Ctx) {
 				}
 			}
 			c.Require("pairing", fname(inc)+": transient score and decay clock change only together", okp, "%s", d)
+			// … and really together: every path on which new transient points are added also re-dates
+			// the score (lastUnix = now); points dated at an older reference time decay too fast
+			okc, dc, nadd := true, "", 0
+			lu := c.writersOfIn(inc, pk+".DynamicBanScore", "lastUnix")
+			luBlock := map[*ssa.BasicBlock]bool{}
+			for _, st := range lu {
+				luBlock[st.Block()] = true
+			}
+			for _, add := range c.writersOfIn(inc, pk+".DynamicBanScore", "transient") {
+				if !mentions(add.Val, paramN(2), 4, nil) {
+					continue
+				}
+				nadd++
+				// (1) after the add: is every way to a return re-dating?
+				after := false
+				for _, st := range lu {
+					if st.Block() == add.Block() && instrDominates(add, st) {
+						after = true
+					}
+				}
+				escapes := func(from *ssa.BasicBlock, target func(*ssa.BasicBlock) bool) bool {
+					seen := map[*ssa.BasicBlock]bool{from: true}
+					work := []*ssa.BasicBlock{from}
+					for len(work) > 0 {
+						b := work[len(work)-1]
+						work = work[:len(work)-1]
+						if b != from && target(b) {
+							return true
+						}
+						for _, s := range b.Succs {
+							if !seen[s] && !luBlock[s] {
+								seen[s] = true
+								work = append(work, s)
+							}
+						}
+					}
+					return false
+				}
+				isRet := func(b *ssa.BasicBlock) bool {
+					_, ok := b.Instrs[len(b.Instrs)-1].(*ssa.Return)
+					return ok
+				}
+				_, addIsRet := add.Block().Instrs[len(add.Block().Instrs)-1].(*ssa.Return)
+				if !after && (addIsRet || escapes(add.Block(), isRet)) {
+					// (2) before the add: does every way from the entry to the add re-date?
+					before := false
+					for _, st := range lu {
+						if st.Block() == add.Block() && instrDominates(st, add) {
+							before = true
+						}
+					}
+					if !before && (add.Block() == inc.Blocks[0] || escapes(inc.Blocks[0], func(b *ssa.BasicBlock) bool { return b == add.Block() })) {
+						okc, dc = false, "points added at "+c.Pos(add.Pos())+" on a path that does not set lastUnix"
+					}
+				}
+			}
+			c.Require("pairing", fname(inc)+": every path that adds transient points re-dates the score", okc && nadd >= 1, "%d add(s) %s", nadd, dc)
 		}
 		it := c.Func(pk, "(*DynamicBanScore).int")
 		if it != nil {
